@@ -76,7 +76,10 @@ CHECKS = {
         "when a consulted candidate is below the criterion and otherwise return the minimum; the group-by-group "
         "assembly of the permutation is a like-atom bijection with permuted[a] = coords2[perm[a]] and does not "
         "depend on the (hash-seed dependent) group order; x -> Q x + t with Q orthogonal and a relabelling "
-        "preserve all inter-atomic distances and species for any atom count. Tied to the code by the regenerated "
+        "preserve all inter-atomic distances and species for any atom count. The clauses about the candidate loops are "
+        "proved for EVERY admissible tie-breaking of the improvement test (`<` and `<=`), and the reported distance is "
+        "proved independent of it (Props/C11Ties.lean); the driver follows the operator read from the source. Tied to "
+        "the code by the regenerated "
         "return/compare/restart structure of optimal_alignment (bridge), by running the real methods with "
         "scripted candidate sequences and recorded Hungarian answers against the model, and by predicates on "
         "rotated/translated/permuted copies of random clusters, LJ13 and the test molecules.",
